@@ -894,6 +894,9 @@ var paramBind = map[*ssa.Parameter]string{}
 // paramBindV: the argument values themselves (for following a value across the call boundary).
 var paramBindV = map[*ssa.Parameter]ssa.Value{}
 
+// paramBindA: integer arguments as affine expressions over system parameters and descriptors.
+var paramBindA = map[*ssa.Parameter]Affine{}
+
 // bindCall runs f with g's parameters bound to the arguments of the call c (descriptors taken in the
 // current context, so bindings compose along a call chain).
 func bindCall(c ssa.CallInstruction, g *ssa.Function, f func()) {
@@ -911,6 +914,8 @@ func bindCall(c ssa.CallInstruction, g *ssa.Function, f func()) {
 		had  bool
 		oldV ssa.Value
 		hadV bool
+		oldA Affine
+		hadA bool
 	}
 	var sv []saved
 	descs := make([]string, len(args))
@@ -923,9 +928,16 @@ func bindCall(c ssa.CallInstruction, g *ssa.Function, f func()) {
 		}
 		old, had := paramBind[p]
 		oldV, hadV := paramBindV[p]
-		sv = append(sv, saved{p, old, had, oldV, hadV})
+		oldA, hadA := paramBindA[p]
+		sv = append(sv, saved{p, old, had, oldV, hadV, oldA, hadA})
 		paramBind[p] = descs[i]
 		paramBindV[p] = args[i]
+		delete(paramBindA, p)
+		if isIntegerType(p.Type()) {
+			if a, ok := affineOf(args[i]); ok {
+				paramBindA[p] = a
+			}
+		}
 	}
 	defer func() {
 		for _, x := range sv {
@@ -938,6 +950,11 @@ func bindCall(c ssa.CallInstruction, g *ssa.Function, f func()) {
 				paramBindV[x.p] = x.oldV
 			} else {
 				delete(paramBindV, x.p)
+			}
+			if x.hadA {
+				paramBindA[x.p] = x.oldA
+			} else {
+				delete(paramBindA, x.p)
 			}
 		}
 	}()
@@ -956,6 +973,10 @@ func bindingSig(fn *ssa.Function) string {
 			sb.WriteString(p.Name())
 			sb.WriteString("=")
 			sb.WriteString(b)
+			if a, ok := paramBindA[p]; ok {
+				sb.WriteString("~")
+				sb.WriteString(a.String())
+			}
 		}
 	}
 	return sb.String()
